@@ -522,7 +522,11 @@ class VeriTAndPos(Macro):
 
     def eval(self, args, prevs=None):
         # args: ~(p1 & p2 & ... & pn) and pk
+        if len(args) != 2:
+            raise VeriTException("and_pos", "clause must have two literals")
         neg_conj, pk = args
+        if not neg_conj.is_not():
+            raise VeriTException("and_pos", "first literal must be a negated conjunction")
         conjs = neg_conj.arg.strip_conj()
         if pk in conjs:
             return Thm(Or(neg_conj, pk))
